@@ -25,7 +25,7 @@ def parseQuad : List Float → Option Quad
   | r :: w :: rest => (parseQuad rest).map ((r, w) :: ·)
   | _ => none
 
-def showRes : Res → String
+def showRes : DRes → String
   | .ok v => "ok " ++ hexOfFloat v
   | .valueError => "ValueError"
   | .zeroDivisionError => "ZeroDivisionError"
